@@ -3,14 +3,18 @@ package main
 // C06 — annotations cross package boundaries intact, whatever the driver or run set.
 
 import (
+	"bytes"
 	"encoding/json"
 	"fmt"
 	"os"
 	"os/exec"
 	"path/filepath"
 	"sort"
+	"strconv"
 	"strings"
 	"sync"
+	"syscall"
+	"time"
 
 	"verif/harness/internal/base"
 	"verif/harness/internal/gen"
@@ -32,10 +36,49 @@ func runVet(dir string, bin string, flags []string, patterns ...string) (*ggrun.
 		}
 	}
 	cmd.Env = env
-	out, err := cmd.CombinedOutput()
+	// own process group + watchdog: an analyzer that never returns must not hang the check. The verdict is taken from
+	// the CPU time the group has burnt, not from the wall clock (a loaded machine only yields "inconclusive").
+	cmd.SysProcAttr = &syscall.SysProcAttr{Setpgid: true}
+	var buf bytes.Buffer
+	cmd.Stdout, cmd.Stderr = &buf, &buf
+	if err := cmd.Start(); err != nil {
+		return &ggrun.Result{}, err
+	}
+	done := make(chan error, 1)
+	go func() { done <- cmd.Wait() }()
+	var err error
+	deadline := time.After(vetWatchdog)
+	tick := time.NewTicker(5 * time.Second)
+	defer tick.Stop()
+	hung := ""
+wait:
+	for {
+		select {
+		case err = <-done:
+			break wait
+		case <-tick.C:
+			if cpu := groupCPU(cmd.Process.Pid); cpu > vetHangCPU {
+				hung = fmt.Sprintf("hang: the go vet process group used %v of CPU without terminating", cpu.Round(time.Second))
+			}
+		case <-deadline:
+			hung = fmt.Sprintf("watchdog: go vet still running after %v (CPU %v)", vetWatchdog, groupCPU(cmd.Process.Pid).Round(time.Second))
+		}
+		if hung != "" {
+			syscall.Kill(-cmd.Process.Pid, syscall.SIGKILL)
+			<-done
+			break wait
+		}
+	}
+	out := buf.Bytes()
 	res := &ggrun.Result{Stdout: string(out)}
 	if cmd.ProcessState != nil {
 		res.Exit = cmd.ProcessState.ExitCode()
+	}
+	if hung != "" {
+		res.TimedOut = true
+		res.Stdout = hung + "\n" + res.Stdout
+		res.Stderr = res.Stdout
+		return res, fmt.Errorf("%s", hung)
 	}
 	res.Diags, res.Errors = ggrun.ParseJSON(string(out), dir)
 	res.Stderr = string(out)
@@ -43,6 +86,41 @@ func runVet(dir string, bin string, flags []string, patterns ...string) (*ggrun.
 		return res, fmt.Errorf("go vet exit %d", res.Exit)
 	}
 	return res, nil
+}
+
+// a vet run over a generated module or a corpus copy needs seconds to a few minutes of CPU in total
+const vetHangCPU = 8 * time.Minute // summed over the LIVE processes of the group: finished workers do not count
+const vetWatchdog = 40 * time.Minute
+
+// groupCPU sums user+system time of the live processes of a process group (from /proc).
+func groupCPU(pgid int) time.Duration {
+	ents, _ := os.ReadDir("/proc")
+	var ticks int64
+	for _, e := range ents {
+		if _, err := strconv.Atoi(e.Name()); err != nil {
+			continue
+		}
+		b, err := os.ReadFile("/proc/" + e.Name() + "/stat")
+		if err != nil {
+			continue
+		}
+		st := string(b)
+		i := strings.LastIndexByte(st, ')')
+		if i < 0 {
+			continue
+		}
+		f := strings.Fields(st[i+1:])
+		if len(f) < 13 {
+			continue
+		}
+		if pg, _ := strconv.Atoi(f[2]); pg != pgid {
+			continue
+		}
+		u, _ := strconv.ParseInt(f[11], 10, 64)
+		sy, _ := strconv.ParseInt(f[12], 10, 64)
+		ticks += u + sy
+	}
+	return time.Duration(ticks) * time.Second / 100
 }
 
 type driveResult struct {
@@ -237,7 +315,9 @@ func checkC06(replay string) {
 		}
 		// vet driver
 		vet, err := runVet(root, ggrun.Bin, cfgFlags, "./...")
-		if err != nil || len(vet.Errors) > 0 {
+		if vet.TimedOut && !strings.HasPrefix(vet.Stdout, "hang:") {
+			r.Inconclusive(fmt.Sprintf("program %d: %s", pi, head(vet.Stdout, 200)))
+		} else if err != nil || len(vet.Errors) > 0 {
 			r.Violate("driver/vet-failed", fmt.Sprintf("program %d: go vet -vettool failed: %v %v\n%s", pi, err, vet.Errors, head(vet.Stdout, 2000)), fs)
 		} else {
 			compare("go-vet-vettool", setIn(vet.Diags, nil), nil)
